@@ -200,7 +200,10 @@ def main(argv):
     probes = P.get('probes', [])
     # (also when the deductive check is undecided: a bounded probe that finds a concrete failing input on the real code
     #  turns 'undecided' into a violation with a witness; finding nothing leaves it undecided)
-    if probes and (tier == 'thorough' or violations or undecided):
+    # (also when a function had to be extracted without some of its proof hints: its proof may have gone through, but the
+    # code was restructured, which is when a bounded second look is cheap insurance)
+    degraded = any(rw.get('rule') == 'DEGRADED' for rw in rewrites)
+    if probes and (tier == 'thorough' or violations or undecided or degraded):
         for pb in probes:
             found, out = run_probe(pb)
             probe_results.append({'probe': pb, 'found_failing_input': found, 'output': out[-1500:]})
